@@ -61,7 +61,7 @@ def cases(tier, seed):
                 cfgs.append(dict(p=pqr[0], q=pqr[1], r=pqr[2], basis=basis))
     if tier == 'quick':
         cfgs = rng.sample(cfgs, 14)
-    for _ in range(24 if tier == 'quick' else 300):
+    for _ in range(24 if tier == 'quick' else 900):
         d = rng.choice((3, 3, 4))
         pqr = rng.choice(pat.pqr_all(d))
         cfgs.append(dict(p=pqr[0], q=pqr[1], r=pqr[2], basis=pat.random_basis(pqr, rng)))
